@@ -48,7 +48,7 @@ func moduleFile(k int, name string, deps [][2]interface{}, depNames []string, pu
 	}
 	// one name for a global and a function of the same file (two name spaces), in both textual orders
 	st = append(st, def("twin", il(K+40)), fn("twin", nil, []Type{TInt}, ret(bin("*", vr("twin"), il(2)))), fn("Tag", nil, []Type{TString}, ret(sl("fn"))), def("Tag", sl(fmt.Sprintf("var%d", k))),
-		fn("Twin", nil, []Type{TString}, ret(bin("+", bin("+", Itoa{bin("+", call("twin"), vr("twin"))}, call("Tag")), vr("Tag")))))
+		fn("Both", nil, []Type{TString}, ret(bin("+", bin("+", Itoa{bin("+", call("twin"), vr("twin"))}, call("Tag")), vr("Tag")))))
 	// a local that every file's function of this name has: the caller reads its own after the callee returned
 	{
 		body := []Stmt{def("total", bin("+", vr("Count"), il(0))), def("steps", il(1))}
@@ -207,7 +207,7 @@ func (s c09Shape) build(salts map[int]int) *Program {
 			pr(sl(a), Call{Alias: a, Fn: "Get"}, Call{Alias: a, Fn: "Deep"}),
 			pr(sl(a), Call{Alias: a, Fn: "Bump", Args: []Expr{il(5)}}, Call{Alias: a, Fn: "Label", Args: []Expr{sl("x y")}}),
 			pr(sl(a), Call{Alias: a, Fn: "Get"}),
-			pr(sl(a), Call{Alias: a, Fn: "Twin"}, Call{Alias: a, Fn: "Sum"}),
+			pr(sl(a), Call{Alias: a, Fn: "Both"}, Call{Alias: a, Fn: "Sum"}),
 		)
 	}
 	if s.std[0] {
